@@ -46,7 +46,8 @@ def tticksCmd (f : List String) : Option String :=
     let meth := match tickMethod (min d0 d1) (max d0 d1) m with
       | .ms _ => "ms"
       | .cal u s => (repr u).pretty ++ "/" ++ showRat s
-    some s!"tticks same={okC (l == mt)} prop={okC (ticksOKB d0 d1 m l)} model={okC (ticksOKB d0 d1 m mt)} n={mt.length} method={meth}"
+    let tie := tickTie (min d0 d1) (max d0 d1) m
+    some s!"tticks same={if tie then "tie" else okC (l == mt)} prop={okC (ticksOKB d0 d1 m l)} model={okC (ticksOKB d0 d1 m mt)} n={mt.length} method={meth}"
   | _ => none
 
 /-- `tnice|d0|d1|m|n0|n1` -/
@@ -56,7 +57,8 @@ def tniceCmd (f : List String) : Option String :=
     let d0 ← parseInt d0; let d1 ← parseInt d1; let m ← parseRat m
     let n0 ← parseInt n0; let n1 ← parseInt n1
     let r := nice d0 d1 m
-    some s!"tnice same={okC (r == (n0, n1))} prop={okC (niceOKB d0 d1 m n0 n1)} model={okC (niceOKB d0 d1 m r.1 r.2)} moved={if r == (d0, d1) then 0 else 1}"
+    let tie := tickTie (min d0 d1) (max d0 d1) m
+    some s!"tnice same={if tie then "tie" else okC (r == (n0, n1))} prop={okC (niceOKB d0 d1 m n0 n1)} model={okC (niceOKB d0 d1 m r.1 r.2)} moved={if r == (d0, d1) then 0 else 1}"
   | _ => none
 
 /-- `tscale|d0|d1|r0|r1|t|y|tinv` : time scale on [d0,d1] (ms) → [r0,r1]; y = scale(t) as observed; tinv = invert(y) in ms -/
@@ -69,7 +71,10 @@ def tscaleCmd (f : List String) : Option String :=
     let tol := ratAbs (r1 - r0) / 1000000000 * (1 + ratAbs (my - r0) / ratAbs (r1 - r0))
     let same := decide (ratAbs (y - my) ≤ tol)
     let inside := decide (min d0 d1 ≤ t) && decide (t ≤ max d0 d1)
-    let back := !inside || decide (ratAbs (tinv - t) ≤ 1)
+    -- 1 ms, plus the float resolution of the range values carried back through the inverse map
+    let cond := ratMax (ratAbs r0) (ratAbs r1) / ratAbs (r1 - r0)
+    let backTol : Rat := 1 + ratAbs ((d1 - d0 : Int) : Rat) * cond / 1125899906842624 * 4
+    let back := !inside || decide (ratAbs (tinv - t) ≤ backTol)
     some s!"tscale same={okC same} back={okC back} inside={if inside then 1 else 0}"
   | _ => none
 
